@@ -29,6 +29,7 @@ def main : IO UInt32 := do
   | ["model", "auxtable"] => loopState stdin stdout AuxTable.driverStep {}
   | ["model", "forest"] => loopState stdin stdout Forest.driverStep {}
   | ["model", "index"] => loopState stdin stdout Index.driverStep {}
+  | ["model", "msg"] => loopPure stdin stdout Msg.driverStep
   | _ => IO.eprintln s!"unknown model line: {first}"; return 2
   stdout.flush
   return 0
